@@ -33,7 +33,7 @@ TRUSTED_BASE = [
     "the five policy facts the main theorem C08_cache_fresh rests on are regex-scraped from ccompiler.lua (Gen.v) and checked behaviourally by replaying the three former defect histories (same-second in real time) on every run",
 ]
 ASSUMPTIONS = [
-    "observable behaviour of a binary is a function of (generated C code, compiler command, compiler identity): edits that change behaviour without changing any of them (an edited C header or extra C file) are outside the model",
+    "the behaviour of a binary is a function of (generated C, compiler command, the world the C compiler reads: compiler + headers/extra C files); the main theorem C08_cache_fresh covers histories in which every world change shows in ccinfo (the property's own step kinds, discharged in ProofsEdits.v); a header-only edit is modelled (world w -> w+10), refuted (C08_cache_fresh_refuted_header_edit) and replayed as a known finding",
     "the hash written into the heading is injective on (code, ccinfo, command) (BLAKE2b collisions ignored)",
     "invocations sharing a cache directory are sequential and the clock is monotone; -o never names a file inside the cache directory",
     "history replay is differential testing on generated histories, not a proof that model = code",
@@ -43,7 +43,9 @@ TPS = 10
 W_SAME_SECOND = "R:0:-:0:0:0:0:0:0 R:0:-:1:0:0:0:0:0"
 W_NOHEAD = "R:0:-:0:0:0:1:0:11 A:30 R:0:-:0:1:0:1:0:0"     # first build crosses a second boundary (matters under <)
 W_SHARED_OUT = "R:0:0:0:0:0:0:0:0 A:30 R:1:0:1:0:0:0:0:0 A:30 R:0:0:0:0:0:0:0:0"
-WITNESSES = [("same-second", W_SAME_SECOND), ("nocheading", W_NOHEAD), ("shared-output", W_SHARED_OUT)]
+# world 0 -> 10: same compiler, edited C header (cinclude): outside the property's step kinds, a known finding
+W_HEADER_EDIT = "R:0:-:0:0:0:0:0:11 R:0:-:0:0:10:0:0:0"
+WITNESSES = [("same-second", W_SAME_SECOND), ("nocheading", W_NOHEAD), ("shared-output", W_SHARED_OUT), ("header-edit", W_HEADER_EDIT)]
 
 
 def key_of(tokens):
@@ -118,10 +120,20 @@ def _gen(ctx, problems):
            "Definition GENPOL : policy := mkPol %s %s %s %s %s %s.\n"
            "(* ticks per second used by the replayer; mtimes are whole seconds (lfs st_mtime) *)\n"
            "Definition TPS : Z := %d%%Z.\n" % (b(p_le), b(p_hash), b(p_size), b(p_reuse_out), b(p_nohead_cache), b(p_del), TPS))
+    cdefs = vlib.repo_read("lualib/nelua/cdefs.lua")
+    gm = re.search(r"compilers_flags\.gcc = tabler\.updatecopy\(compilers_flags\.cc, \{(.*?)\n\}\)", cdefs, re.S)
+    rel = re.search(r'cflags_release = "([^"]*)"', gm.group(1)) if gm else None
+    dev = re.search(r'cflags_devel = "([^"]*)"', gm.group(1)) if gm else None
+    if not (rel and dev):
+        problems.append("cannot find cflags_release / cflags_devel of compilers_flags.gcc in cdefs.lua")
+    coqlist = lambda t: "".join("(cons %d " % ord(ch) for ch in t) + "nil" + ")" * len(t)
+    txt += ("(* cdefs.lua compilers_flags.gcc: cflags_release / cflags_devel as character codes *)\n"
+            "Definition GCC_RELEASE_FLAGS : list Z := (%s)%%Z.\nDefinition GCC_DEVEL_FLAGS : list Z := (%s)%%Z.\n" %
+            (coqlist(rel.group(1) if rel else ""), coqlist(dev.group(1) if dev else "")))
     vlib.write_if_changed(os.path.join(vlib.coq_dir(ID), "Gen.v"), txt)
     ctx.genpol = {"p_le": p_le, "p_head_hash": p_hash, "p_size_chk": p_size, "p_reuse_out": p_reuse_out,
                   "p_nohead_cache": p_nohead_cache, "p_del_rewrite": p_del}
-    return dict(ctx.genpol, heading_has_command=p_cmd, mtime_unit="whole seconds (lfs st_mtime)", ticks_per_second=TPS)
+    return dict(ctx.genpol, gcc_cflags_release=rel.group(1) if rel else None, gcc_cflags_devel=dev.group(1) if dev else None, heading_has_command=p_cmd, mtime_unit="whole seconds (lfs st_mtime)", ticks_per_second=TPS)
 
 
 # --------------------------------------------------------------------------- model driver
@@ -268,7 +280,43 @@ def shrink(model, tokens, rp):
                     cand[i]["code"] = fresh
                     if fails(cand):
                         steps = cand
-        for f in ("code", "cmd", "slot", "out", "cc"):   # rename by first occurrence
+        # a run that only serves to make the binary newer than the C file = a slower first build
+        changed = True
+        while changed:
+            changed = False
+            ri = [i for i, x in enumerate(steps) if x["k"] != "A"]
+            for a, b2 in zip(ri, ri[1:]):
+                cand = [dict(x) for j, x in enumerate(steps) if j != b2 and not (a < j < b2 and x["k"] == "A")]
+                cand[a]["dur"] = 11
+                if len([x for x in cand if x["k"] != "A"]) >= 2 and fails(cand):
+                    steps = cand
+                    changed = True
+                    break
+                cand = [dict(x) for j, x in enumerate(steps) if j != a and not (a < j < b2 and x["k"] == "A")]
+                for x in cand:
+                    if x is not None and x["k"] != "A":
+                        x["dur"] = 11          # (the first remaining run)
+                        break
+                if len([x for x in cand if x["k"] != "A"]) >= 2 and fails(cand):
+                    steps = cand
+                    changed = True
+                    break
+        # worlds: one compiler throughout -> compiler 0; header versions renamed by first occurrence
+        runs_w = [x for x in steps if x["k"] != "A"]
+        cand = [dict(x) for x in steps]
+        if len({x["cc"] % 10 for x in runs_w}) == 1:
+            for x in cand:
+                if x["k"] != "A":
+                    x["cc"] = 10 * (x["cc"] // 10)
+        ren = {}
+        for x in cand:
+            if x["k"] != "A":
+                hv = x["cc"] // 10
+                ren.setdefault(hv, len(ren))
+                x["cc"] = x["cc"] % 10 + 10 * ren[hv]
+        if _fmt(cand, rp) != _fmt(steps, rp) and fails(cand):
+            steps = cand
+        for f in ("code", "cmd", "slot", "out"):         # rename by first occurrence (worlds keep their meaning)
             ren = {}
             cand = [dict(x) for x in steps]
             for s in cand:
@@ -286,6 +334,9 @@ def shrink(model, tokens, rp):
                 steps = cand
         if _fmt(steps, rp) == before:
             break
+    cand = [x for x in steps if x["k"] != "A"]       # spacing that is not needed is dropped
+    if len(cand) != len(steps) and fails(cand):
+        steps = cand
     return _fmt(steps, rp)
 
 
@@ -303,6 +354,7 @@ def gen_history(rng, flavour):
     p_nohead = {"mixed": .12, "tight": 0, "spaced": 0, "opts": .3}[flavour]
     p_out = {"mixed": .15, "tight": .05, "spaced": .1, "opts": .15}[flavour]
     p_cc = {"mixed": .06, "tight": 0, "spaced": .06, "opts": .2}[flavour]
+    p_hdr = {"mixed": .04, "tight": 0, "spaced": 0, "opts": .06}[flavour]
     nohead_hist = rng.random() < p_nohead * 2
     out_owner = {}
     while len(toks) < n:
@@ -325,8 +377,10 @@ def gen_history(rng, flavour):
         elif c < .52:
             cur["cmd"] = rng.choice([x for x in (0, 1, 2, 100, 101) if x != cur["cmd"]])   # --cflags / --release
         elif c < .52 + p_cc:
-            cur["cc"] = 1 - cur["cc"]                                                   # compiler behind the name changes
-        elif c < .64 and flavour != "spaced":
+            cur["cc"] = (1 - cur["cc"] % 10) + 10 * (cur["cc"] // 10)                   # compiler behind the name changes
+        elif c < .52 + p_cc + p_hdr:
+            cur["cc"] = cur["cc"] % 10 + 10 * (1 - cur["cc"] // 10)                     # the included C header is edited
+        elif c < .70 and flavour != "spaced":
             cur["slot"] = 1 - cur["slot"]
         cur["nohead"] = nohead_hist and rng.random() < .8
         cur["nocache"] = rng.random() < .08
@@ -543,8 +597,9 @@ def correspond(ctx):
     full_now = bool(genpol) and (not genpol.get("p_le") or genpol.get("p_del_rewrite")) and not genpol.get("p_reuse_out") \
         and not genpol.get("p_nohead_cache") and genpol.get("p_head_hash") and genpol.get("p_size_chk")
     cov.update({
-        "main_theorem": ("C08_cache_fresh : cache_fresh GENPOL (FULL strength: every history, every spacing) is the obligation discharged for the "
-                         "policy scraped from the current tree; the _refuted_* lemmas are vacuous for it") if full_now else
+        "main_theorem": ("C08_cache_fresh : cache_fresh GENPOL (FULL strength over the property's step kinds - source/module/-D/-P/--cflags/--release edits, "
+                         "source and compiler switches, -o, --no-cache, --code, interrupted builds - every history, every spacing) is the obligation discharged "
+                         "for the policy scraped from the current tree; documented limit: header-only edits (C08_cache_fresh_refuted_header_edit, known finding)") if full_now else
                         "the scraped policy does NOT satisfy the premises of the full theorem: C08_cache_fresh cannot check (see proof_problems)",
         "full_theorem_premises_hold_for_scraped_policy": bool(full_now),
         "evaluations": n_inv,
